@@ -21,9 +21,10 @@ THEOREMS = {
             "Cntgs.C11.swap_exchanges", "Cntgs.C11.swap_involutive", "Cntgs.C11.iter_add_sub", "Cntgs.C11.iter_diff",
             "Cntgs.C11.iter_diff_add", "Cntgs.C11.iter_order", "Cntgs.C11.iter_trichotomy", "Cntgs.runs_ok"],
     "C12": ["Cntgs.C12.from_reference", "Cntgs.C12.copy_assign_fixed", "Cntgs.C12.copy_assign_varying", "Cntgs.C12.move_assign_value",
-            "Cntgs.C12.swap_values", "Cntgs.C12.to_reference", "Cntgs.C12.independent"],
+            "Cntgs.C12.swap_values", "Cntgs.C12.to_reference", "Cntgs.C12.independent", "Cntgs.C12.copy_with_allocator",
+            "Cntgs.C12.move_with_equal_allocator", "Cntgs.C12.move_with_unequal_allocator"],
     "C19": ["Cntgs.C19.copy_leaves_others", "Cntgs.C19.const_no_write", "Cntgs.C19.schedule_keeps_shared",
-            "Cntgs.C19.obs_depends_on_shared_only"],
+            "Cntgs.C19.obs_depends_on_shared_only", "Cntgs.C19.elem_const_no_write", "Cntgs.C19.elem_schedule_keeps_shared"],
     "C20": ["Cntgs.C20.category_partition", "Cntgs.C20.ctor_dispatch", "Cntgs.C20.availability"],
     "C07": ["Cntgs.C07.allocation_recorded", "Cntgs.C07.release_exact", "Cntgs.C07.reallocation_clean", "Cntgs.C07.assignment_clean",
             "Cntgs.C07.destroy_returns_data_block", "Cntgs.C07.no_leak_counter_witness", "Cntgs.C07.no_leak_partial",
@@ -33,7 +34,9 @@ THEOREMS = {
     "C17": ["Cntgs.C17.failed_allocation_is_clean", "Cntgs.C17.reallocate_strong", "Cntgs.C17.copy_assign_fault",
             "Cntgs.C17.allocPair_fault", "Cntgs.C17.construction_fault", "Cntgs.C17.reserve_fault_unchanged",
             "Cntgs.C17.copy_fault_unchanged", "Cntgs.C17.move_assign_fault_unchanged", "Cntgs.C17.copy_assign_fault_world",
-            "Cntgs.C17.allocTable_fault", "Cntgs.C17.history_with_allocation_failures", "Cntgs.C17.failed_step"],
+            "Cntgs.C17.allocTable_fault", "Cntgs.C17.history_with_allocation_failures", "Cntgs.C17.failed_step",
+            "Cntgs.C17.element_from_reference_fault", "Cntgs.C17.element_copy_fault", "Cntgs.C17.element_copy_alloc_fault",
+            "Cntgs.C17.element_move_alloc_fault", "Cntgs.C17.element_move_swap_nothrow", "Cntgs.C17.element_copy_assign_fault"],
     "C05": ["Cntgs.C05.fields_greedy", "Cntgs.C05.alignUp_is_lowest", "Cntgs.C05.elements_greedy", "Cntgs.C05.units_tight",
             "Cntgs.elemSize_fixed", "Cntgs.elemSize_bound"],
     "C01": ["Cntgs.C01.history_offset_table_partial", "Cntgs.C01.history_offset_table_no_overlap", "Cntgs.C01.history_stride", "Cntgs.C01.history_cap",
@@ -233,6 +236,8 @@ def stream_faults(seed, tier):
                                                   "s-OneFixedUniquePtr", "s-OneVaryingUniquePtr")]
     for c in [gen.Cfg(c.name + "-" + a, c.params, a) for c in matrix_base for a in (("0000", "0100", "1000") if tier == "quick" else ALLOCS)]:
         for seq in gen.gen_fault_matrix(rng, c):
+            out.append((c, seq))
+        for seq in gen.gen_element_faults(rng, c):
             out.append((c, seq))
     for c in cfgs:
         for s in range(3 if tier == "quick" else 6):
